@@ -123,7 +123,10 @@ Section Mirror.
       assert (He : kv_ok e) by (unfold kv_ok, two64; cbn; lia).
       destruct (dget shadow k) as [|x old'] eqn:Eo.
       + rewrite merge_absent in Hmg by auto.
-        change (is_deleted (masked_flags e)) with false in Hmg. cbn [andb] in Hmg. injection Hmg as <-.
+        assert (Hnd : new_deleted c e = false).
+        { unfold new_deleted, c, e, capture_cfg, masked_flags. cbn [k_flags k_val c_fmt].
+          change (CurrentFormatVersion <? 2) with false. rewrite andb_false_r. reflexivity. }
+        rewrite Hnd in Hmg. cbn [andb] in Hmg. injection Hmg as <-.
         change (add_header c (dget main k) 0 (masked_flags e)) with (add_header c (k_val e) (k_ts e) (masked_flags e)).
         rewrite merge_absent_ver by auto. unfold c, e. rewrite raw_norm. reflexivity.
       + destruct (ver_of (x :: old')) as [o|] eqn:Ev.
